@@ -17,7 +17,7 @@ import (
 type c25Writer struct{}
 
 func (c25Writer) WriteStreamData(identity.AgentID, uint64, []byte, uint8) error { return nil }
-func (c25Writer) WriteStreamClose(identity.AgentID, uint64) error              { return nil }
+func (c25Writer) WriteStreamClose(identity.AgentID, uint64) error               { return nil }
 
 type c25Pipe struct{}
 
@@ -28,18 +28,20 @@ func (c25Pipe) Close() error                { return nil }
 // replacements for os/exec and the JSON codecs (see props/C25.json)
 var c25StartFails bool
 
-func c25Command(ctx context.Context, name string, arg ...string) *exec.Cmd { return &exec.Cmd{Path: name} }
-func c25StdinPipe(c *exec.Cmd) (io.WriteCloser, error)                    { return c25Pipe{}, nil }
-func c25OutPipe(c *exec.Cmd) (io.ReadCloser, error)                       { return c25Pipe{}, nil }
+func c25Command(ctx context.Context, name string, arg ...string) *exec.Cmd {
+	return &exec.Cmd{Path: name}
+}
+func c25StdinPipe(c *exec.Cmd) (io.WriteCloser, error) { return c25Pipe{}, nil }
+func c25OutPipe(c *exec.Cmd) (io.ReadCloser, error)    { return c25Pipe{}, nil }
 func c25CmdStart(c *exec.Cmd) error {
 	if c25StartFails {
 		return errors.New("exec: not found")
 	}
 	return nil
 }
-func c25CmdWait(c *exec.Cmd) error                      { return nil }
-func c25DecodeMeta(payload []byte) (*ShellMeta, error)  { return &ShellMeta{Command: "ls"}, nil }
-func c25EncodeError(e *ShellError) ([]byte, error)      { return []byte{MsgError}, nil }
+func c25CmdWait(c *exec.Cmd) error                     { return nil }
+func c25DecodeMeta(payload []byte) (*ShellMeta, error) { return &ShellMeta{Command: "ls"}, nil }
+func c25EncodeError(e *ShellError) ([]byte, error)     { return []byte{MsgError}, nil }
 
 func harnessC25StartFailureRace() {
 	e := NewExecutor(Config{Enabled: true, Whitelist: []string{"ls"}, MaxSessions: 2})
